@@ -377,6 +377,75 @@ def r_leg_swap_uncond(ck: Checker) -> None:
         ck.incomplete("R-LEG-LINK", None, None, "no hand-over to the parent (`parent._replace_child(...)`) found in replace / replace_with (2 confirmed by hand)")
 
 
+def r_leg_release_uncond(ck: Checker) -> None:
+    """AwareASTNode.replace releases the old node and its children (`self.detach_self()`) whenever the node is attached: the children that the
+    new node does not take over must not stay attached with a parent link to a node that is gone.  Positive pattern: the release is
+    conditional on *what is being replaced* (a condition computed from the keyword arguments)."""
+    f = ck.repo.func(LNODE, f"{CLS}.replace")
+    fn = f.node
+    kw = fn.args.kwarg.arg if fn.args.kwarg else None
+    if kw is None:
+        raise Unsupported("AwareASTNode.replace takes no **changes", fn)
+    parent = {id(c): p_ for p_ in ast.walk(fn) for c in ast.iter_child_nodes(p_)}
+
+    def depends_on_changes(e: ast.expr, depth: int = 0) -> bool:
+        for x in ast.walk(e):
+            if isinstance(x, ast.Name) and x.id == kw:
+                return True
+            if isinstance(x, ast.Name) and depth < 3:
+                defs = [st.value for st in ast.walk(fn) if isinstance(st, ast.Assign) and len(st.targets) == 1 and isinstance(st.targets[0], ast.Name) and st.targets[0].id == x.id]
+                if len(defs) == 1 and depends_on_changes(defs[0], depth + 1):
+                    return True
+        return False
+    calls_ = [c for c in ast.walk(fn) if isinstance(c, ast.Call) and isinstance(c.func, ast.Attribute) and c.func.attr in ("detach_self", "detach") and norm(c.func.value) == "self"]
+    if not calls_:
+        raise Unsupported("AwareASTNode.replace: no self.detach_self() found", fn)
+    for c in calls_:
+        what = f"{CLS}.replace: an attached node and its children are released before the new node is built, whatever is being replaced"
+        bad = None
+        x: ast.AST = c
+        while id(x) in parent:
+            up = parent[id(x)]
+            if isinstance(up, ast.If) and x is not up.test and depends_on_changes(up.test):
+                bad = norm(up.test)[:60]
+            x = up
+        if bad:
+            ck.violation("R-LEG-LINK", f, c, what, positive=True,
+                         construct=f"{CLS}.replace: {norm(c)} only under `{bad}`, which is computed from the replaced values — children the new node drops (a field set to None / ()) stay attached and keep claiming a position in it")
+        else:
+            ck.holds("R-LEG-LINK", f, c, what)
+
+
+def r_leg_eq_search(ck: Checker, rule: str = "R-LEG-IDENT") -> None:
+    """Legacy nodes have a structural __eq__ (twins are ==).  `seq.index(node)`, `seq.remove(node)`, `seq.count(node)` and `node in seq`
+    find the first *equal* element: for a node sitting behind an equal sibling that is another object at another position
+    (positive pattern: such a search for self / a node-valued parameter in the legacy node module)."""
+    from .state_rules import _raw_functions
+    m_ = ck.repo.mod(LNODE)
+    n = 0
+    for q, fn, cls in _raw_functions(m_):
+        if cls is None or cls.name != CLS:
+            continue
+        nodeish = {"self"} | {a.arg for a in fn.args.args if a.annotation is not None and "ASTNode" in norm(a.annotation)}
+        bad = None
+        for x in ast.walk(fn):
+            if isinstance(x, ast.Call) and isinstance(x.func, ast.Attribute) and x.func.attr in ("index", "remove", "count") and len(x.args) >= 1 \
+                    and isinstance(x.args[0], ast.Name) and x.args[0].id in nodeish:
+                bad = x
+            elif isinstance(x, ast.Compare) and len(x.ops) == 1 and isinstance(x.ops[0], (ast.In, ast.NotIn)) and isinstance(x.left, ast.Name) and x.left.id in nodeish \
+                    and not isinstance(x.comparators[0], (ast.Dict, ast.Set)) and not any(k in norm(x.comparators[0]) for k in ("_nodes", "seen", "visited", "ids")):
+                tgt = x.comparators[0]
+                # membership in a list / tuple of nodes compares with == ; in a dict / set it hashes first (legacy nodes hash by id)
+                if isinstance(tgt, (ast.List, ast.Tuple)) or any(k in norm(tgt) for k in ("children", "getattr(", "siblings", "get_child_nodes")):
+                    bad = x
+        n += 1
+        what = f"{q}: a node is looked for among nodes by identity / recorded position, not by equality (twins are ==)"
+        if bad is not None:
+            ck.violation(rule, (m_.rel, q), bad, what, positive=True,
+                         construct=f"{q}: {norm(bad)[:60]} finds the first *equal* node — behind an equal sibling that is another object at another position")
+    ck.holds(rule, (m_.rel, f"{CLS}.*"), None, "no method of the legacy node class looks a node up among nodes by equality (index / remove / count / `in` over a sequence of nodes)", evaluations=n)
+
+
 def r_leg_rekey(ck: Checker) -> None:
     """Children name their parent by *id*: when the id of an existing node V is rewritten, the children of V must be pointed at the
     new id (V._attach / V.attach / V._attach_inner do it, or an explicit loop) on every path that completes normally."""
@@ -512,6 +581,12 @@ def run(ck: Checker) -> None:
     ck.guard("R-LEG-LINK", lambda: r_leg_link(ck))
     ck.guard("R-LEG-LINK", lambda: r_leg_rekey(ck))
     ck.guard("R-LEG-LINK", lambda: r_leg_swap_uncond(ck))
+    ck.guard("R-LEG-LINK", lambda: r_leg_release_uncond(ck))
+    ck.guard("R-LEG-IDENT", lambda: r_leg_eq_search(ck))
+    from . import state_rules as S_c
+    ck.guard("R-LEG-LINK", lambda: S_c.r_class_attr_cache(ck, "R-LEG-LINK", (LNODE,)))
+    from . import state_rules as S_
+    ck.guard("R-LEG-DIGEST", lambda: S_.r_unstable_key(ck, "R-LEG-DIGEST", [(LNODE, "AwareASTNode")], "ids move between legacy nodes (replace_with hands the old id to the new node)"))
     ck.guard("R-LEG-IDENT", lambda: r_leg_live_links(ck))
     ck.guard("R-LEG-DIGEST", lambda: r_leg_digest(ck))
     from .c20 import r_legacy_presence, r_xpath_spell
